@@ -85,4 +85,38 @@ theorem tree_only_models_keeps_types (cfg : Config) (hc : genCfg cfg) (d : Nat) 
           · cases hn
         · subst hdd; simp [nodeDecl]
     exact key d _ t
+/-- a field without what `--tags` controls (tag text, the keys each wire binds, omitempty) -/
+def fieldCore (f : Field) : String × String × GoTy × String := (f.name, f.jsonName, f.ty, f.comment)
+
+/-- a declaration without what `--tags` controls -/
+def declCore (d : Decl) : String × DeclBody × String × List (String × String × GoTy × String) :=
+  (d.name, d.body, d.comment, match d.ty with | .strct fs => fs.map fieldCore | _ => [])
+
+theorem treeDecls_core_tags (cfg : Config) (tags : List String) : ∀ d scope t,
+    (treeDecls { cfg with tags := tags } d scope t).map declCore = (treeDecls cfg d scope t).map declCore := by
+  intro d
+  induction d with
+  | zero => intro _ _; rfl
+  | succ d ih =>
+    intro scope t
+    simp only [treeDecls, List.map_append, List.map_flatMap, List.map_cons, List.map_nil]
+    congr 1
+    · apply flatMap_congr'
+      intro n _
+      split
+      · exact ih _ _
+      · rfl
+    · simp [declCore, nodeDecl, List.map_map, Function.comp_def, fieldCore, fieldT]
+
+/-- **C16 for trees, `--tags`**: every declaration keeps its name, its validators and method, its comment, and every field
+    its name, type and comment; only tag text and key binding depend on the tag list -/
+theorem tree_tags_change_only_tags (cfg : Config) (hc : genCfg cfg) (d : Nat) (t : Schema) (h : TreeOK d t)
+    (hnd : (scopes d cfg.rootType t).Nodup) (hd : d ≤ 5) (id : String) (tags : List String) :
+    ∃ o1 o2, Gen.run cfg { id := id, hasRoot := true, root := t, defs := [] } = .ok o1 ∧
+      Gen.run { cfg with tags := tags } { id := id, hasRoot := true, root := t, defs := [] } = .ok o2 ∧
+      o1.decls.map declCore = o2.decls.map declCore := by
+  obtain ⟨o1, h1, d1⟩ := run_tree cfg hc d t h hnd hd id
+  obtain ⟨o2, h2, d2⟩ := run_tree { cfg with tags := tags } hc d t h hnd hd id
+  exact ⟨o1, o2, h1, h2, by rw [d1, d2]; exact (treeDecls_core_tags cfg tags d _ t).symm⟩
+
 end GJS.Props.Tree
